@@ -159,7 +159,8 @@ WHAT = {1: "nearest sampling returned a different source pixel (got r*1000+a %d,
         3: "the result is not a valid premultiplied colour (channel %d above alpha %d)",
         4: "a pixel outside the source rectangle of draw_pixmap changed (alpha %d, was %d)",
         5: "a constant-colour image is not reproduced (got r*1000+a %d, expected %d)",
-        7: "an anti-aliased edge pixel of a Pattern fill is not the interior colour scaled by its coverage (got %d, expected %d): the pattern opacity is not applied on edge pixels",
+        7: "an anti-aliased edge pixel of a Pattern fill does not lie its coverage's share of the way from the destination to the interior colour (got %d, expected %d): the pattern opacity is not applied on edge pixels as on interior ones",
+        8: "an interior pixel of a constant-colour Pattern fill is not the source scaled by the opacity and blended (got %d, expected %d)",
         6: "a channel differs from the reference (filter taps and weights at the mapped position, clamps, opacity, blend): got %d, reference %d"}
 
 
